@@ -737,6 +737,29 @@ func (em *emitter) emitCallNode(call *ast.Call, goStmt bool, deferStmt bool, toF
 	return regs, types
 }
 
+// printedType returns the type used to print a value of type typ: values of
+// types defined in the compiled code are printed as values of the
+// corresponding Go type, as the print functions cannot deal with them.
+func printedType(typ reflect.Type) reflect.Type {
+	if st, ok := typ.(runtime.ScriggoType); ok && typ.Kind() != reflect.Interface {
+		return st.GoType()
+	}
+	return typ
+}
+
+// emitPrintArg emits the argument arg of a call to the print or println
+// builtin into a new general register and returns the register.
+func (em *emitter) emitPrintArg(arg ast.Expression) int8 {
+	typ := em.typ(arg)
+	if printedType(typ) == typ {
+		return em.emitExpr(arg, emptyInterfaceType)
+	}
+	v := em.emitExpr(arg, typ)
+	reg := em.fb.newRegister(reflect.Interface)
+	em.changeRegister(false, v, reg, printedType(typ), emptyInterfaceType)
+	return reg
+}
+
 // emitBuiltin emits instructions for a builtin call, writing the result, if
 // necessary, into the register reg.
 func (em *emitter) emitBuiltin(call *ast.Call, reg int8, dstType reflect.Type) {
@@ -897,7 +920,7 @@ func (em *emitter) emitBuiltin(call *ast.Call, reg int8, dstType reflect.Type) {
 				} else {
 					em.fb.enterStack()
 					tmp := em.fb.newRegister(reflect.Interface)
-					em.changeRegister(false, argRegs[i], tmp, argTypes[i], emptyInterfaceType)
+					em.changeRegister(false, argRegs[i], tmp, printedType(argTypes[i]), emptyInterfaceType)
 					em.fb.emitPrint(tmp)
 					em.fb.exitStack()
 				}
@@ -908,7 +931,7 @@ func (em *emitter) emitBuiltin(call *ast.Call, reg int8, dstType reflect.Type) {
 			em.fb.enterStack()
 			argRegs := make([]int8, len(args))
 			for i, argExpr := range args {
-				argRegs[i] = em.emitExpr(argExpr, emptyInterfaceType)
+				argRegs[i] = em.emitPrintArg(argExpr)
 			}
 			for _, arg := range argRegs {
 				em.fb.emitPrint(arg)
@@ -931,7 +954,7 @@ func (em *emitter) emitBuiltin(call *ast.Call, reg int8, dstType reflect.Type) {
 				} else {
 					em.fb.enterStack()
 					tmp := em.fb.newRegister(reflect.Interface)
-					em.changeRegister(false, argRegs[i], tmp, argTypes[i], emptyInterfaceType)
+					em.changeRegister(false, argRegs[i], tmp, printedType(argTypes[i]), emptyInterfaceType)
 					em.fb.emitPrint(tmp)
 					em.fb.exitStack()
 				}
@@ -942,7 +965,7 @@ func (em *emitter) emitBuiltin(call *ast.Call, reg int8, dstType reflect.Type) {
 			em.fb.enterStack()
 			argRegs := make([]int8, len(args))
 			for i, argExpr := range args {
-				argRegs[i] = em.emitExpr(argExpr, emptyInterfaceType)
+				argRegs[i] = em.emitPrintArg(argExpr)
 			}
 			for i, arg := range argRegs {
 				if i > 0 {
